@@ -12,7 +12,8 @@ core.register("C08", "Props.C08", "theories/Props/C08.vo",
 core.register("C14", "Props.C14", "theories/Props/C14.vo", ["C14_quiescent", "C14_drain_terminates"])
 core.register("C03", "Props.C03", "theories/Props/C03.vo", [])
 core.register("C05", "Props.C05", "theories/Props/C05.vo", [])
-core.register("C07", "Props.C07", "theories/Props/C07.vo", [])
+core.register("C07", "Props.C07", "theories/Props/C07.vo",
+              ["C07_refuted_live", "C07_reads_total_outside_known", "C07_boundary_in_force_is_not_enough"])
 
 
 # ------------------------------------------------------------------ running traces
@@ -285,7 +286,7 @@ def run_C04(ctx):
 
 
 # ------------------------------------------------------------------ crash images from snapshots
-IMG_AFTER = "G ; R 0 100000 ; D ; V 4000000000 1 ; F 1 ; I ; X 100000 1073741824 4 1073741824 1 64 ; G ; R 0 100000"
+IMG_AFTER = "G ; R 0 100000 ; D ; A ; V 4000000000 1 ; F 1 ; I ; X 100000 1073741824 4 1073741824 1 64 ; G ; R 0 100000"
 
 
 def writes_of_case(case, log):
